@@ -154,11 +154,12 @@ S["C11"] = dict(title="Every request completes and gets its own response", techn
   outside=["the 8192-identifier reuse horizon (by design)","more than 2 concurrent requests except through the per-slot argument"])
 S["C19"] = dict(title="FileSystem store: Save and Delete are atomic per key across process stops", technique=TECH+"; the real fileSystem methods run against a modelled file system, the stop point is a case-split index into the modelled system calls", harnesses=[
     H("verifH_C19_atomic", "Save/Delete of one key: stop before every call and inside the data write, or one failing call; a fresh process then Loads and Lists", T({"maxcalls":8}), T({"maxcalls":10}), ("saved","save-failed","stopped","deleted","end"), engine_replay=True),
+    H("verifH_C19_concurrent", "Save(k1) running concurrently with Save / Delete / List+Load on another key, every modelled system call a scheduling point: each operation has the effect it has alone, readers see complete values only, no spool file left", T({"faults":0}, time_sec=900), T({"faults":1}, time_sec=2400, maxpaths=2000000), engine_replay=True),
     H("verifH_C19_names", "file(k1) != file(k2), spoolFile != file for all keys < 2^17 (exact %05x model)", reach=("distinct",), engine_replay=True),
     H("verifH_C19_parse", "ParseUint(file(k), 16, 17) == k for all keys < 2^17 (real strconv)", engine_replay=True),
   ],
   assumptions=["file-system model (trusted): create-truncate, write (partial on failure or stop), sync, close, rename (atomic replace, POSIX), remove, readdirnames, readfile; a killed process keeps the effects of completed calls and an arbitrary prefix of the write in progress",
     "fmt.Sprintf(\"%s%05x\") is modelled exactly on bit-vectors; package os is intercepted onto the model, so counterexamples are re-executed concretely in the engine, not natively",
-    "kernel-level rename atomicity and fsync durability are axioms; concurrent Save/Load/Delete/List on overlapping keys are outside"],
+    "kernel-level rename atomicity and fsync durability are axioms; concurrent operations on the same key are outside (the property claims different keys; two Saves of one key share the spool file)"],
   bounds={"quick":"one key with absent/complete previous value, value of 13..14 symbolic bytes in 2 buffers, optional leftover spool file, stop at any of <= 8 calls or 1 failing call","thorough":"<= 10 calls"},
-  outside=["the kernel","values of several MiB","concurrent operations"])
+  outside=["the kernel","values of several MiB","more than two concurrent operations; concurrent operations on the same key"])
